@@ -4,7 +4,7 @@ import pool_common as pc
 pc.install(globals(), "C11", "C11", "generators",
     rule=("Emit (frequency 1, 3, 10 ticks; affine functions; optionally failing indices under Try) and Unfold (affine step functions) x "
           "capacities 0..3 x consumer schedules of (sleep d, receive attempt) on testing/synctest's virtual clock incl. the consumer that "
-          "keeps up (sleep one period, receive twice) x cancel at a random point or never, from VERIF_SEED. Distinct by full observed trace; "
+          "keeps up (sleep one period, receive twice) x cancel at a random point or never, from VERIF_SEED. fail-fast step functions failing while nobody reads the error channel, Unfold under Try with failing seeds, a consumer that parks in a blocking receive after the cancel, and free-running rounds (real goroutines: consumer parked in a blocking receive, step function taking 0/20/200 microseconds, cancel mid-stream, judged in Go). Distinct by full observed trace; "
           "non-trivial when a value was delivered"),
     claim={
         "text": "Theorems proved by the Coq kernel for every capacity, step function, frequency, consumer schedule and cancel point: what is delivered is a prefix of the exact successive sequence (seed, f seed, ... / f(0), f(1), ... with failing indices skipped under Try); pacing lower bound for ANY clock advance policy: k results available => k*frequency elapsed (C11_emit_not_early); pacing upper bound under maximal progress with a consumer that keeps up (the clock moves only when no step of the goroutine is enabled and nothing is receivable on the value/error channel, never past a pending timer, no cancel): whenever the clock may move Emit has made n calls with n*freq <= now < (n+1)*freq and every result of these calls has been received (C11_emit_keeps_up, C11_emit_pace_invariant), so at time k*freq exactly k calls were made and value f(i) arrived at tick i+1 (C11_emit_one_per_tick), results received = now/freq (C11_emit_rate), with concrete maximal-progress runs as non-vacuity witnesses; after cancel the only state without an enabled step (and pending sleep) has the goroutine returned and both channels closed.",
